@@ -720,7 +720,24 @@ func (t *lTr) fmtShape() string {
 func loadShape() string {
 	bad := "LoadIR \"\" \"\" \"\" false"
 	fd := funcDecls["loadGraph"]
-	if fd == nil || fd.Body == nil || len(fd.Body.List) != 4 {
+	if fd == nil || fd.Body == nil {
+		return bad
+	}
+	// instrumentation sync points (verifPoint("...") with a literal name: a no-op without the verif tag) are not part of the shape
+	var body []ast.Stmt
+	for _, st := range fd.Body.List {
+		if es, ok := st.(*ast.ExprStmt); ok {
+			if c, ok := es.X.(*ast.CallExpr); ok {
+				if id, ok := c.Fun.(*ast.Ident); ok && id.Name == "verifPoint" && len(c.Args) == 1 {
+					if _, ok := c.Args[0].(*ast.BasicLit); ok {
+						continue
+					}
+				}
+			}
+		}
+		body = append(body, st)
+	}
+	if len(body) != 4 {
 		return bad
 	}
 	ps := paramNames(fd)
@@ -738,7 +755,7 @@ func loadShape() string {
 		}
 		return f.Name, true
 	}
-	s := fd.Body.List
+	s := body
 	a1, ok := s[0].(*ast.AssignStmt)
 	if !ok || a1.Tok != token.DEFINE || len(a1.Lhs) != 1 || len(a1.Rhs) != 1 {
 		return bad
